@@ -22,6 +22,7 @@ EXPLANATION = (
     "B * mesh_size * scale is added to the incumbent. R4 loop discipline in the poll loop: the row evaluated is rows[i]; rows = delete(rows, "
     "i) and count += 1 lie on every path from the evaluation back to the loop header; the loop test has count < 2*D; the basis is generated "
     "only while it is None/empty. R5 poll candidates are snapped to the search grid only. R6 the mesh-size slots read by the poll step are coherent with their exponents on all paths (rules/meshflow.py: interprocedural must-dataflow, see C13-R5). Replaces the exhaustive enumeration over D <= 3 (an execution) by a symbolic argument."
+    " R7 out-of-box poll candidates are dropped: the filter projects exactly when its flag is set and the poll step passes False."
 )
 
 RNG_ALIASES = ("rnd", "np.random", "numpy.random", "random")
